@@ -108,6 +108,17 @@ NormWords(words) ==
   ELSE LET body == SelectSeq(words, LAMBDA x : x # <<>>) IN
        IF words[Len(words)] = <<>> THEN Append(body, <<>>) ELSE body
 
+(* The same, also answering which parser actions the earlier words took.    *)
+RECURSIVE CompActsFrom(_, _, _, _, _)
+CompActsFrom(cfg, orc, ws, st, acts) ==
+  IF st.phase \notin {"scan", "pair", "intake"} THEN acts
+  ELSE IF st.phase = "scan" /\ st.i >= Len(ws) THEN acts
+  ELSE LET nx == Step(cfg, orc, ws, FALSE, st) IN CompActsFrom(cfg, orc, ws, nx, acts \cup {nx.act})
+CompActs(cfg, orc, words0) ==
+  LET words == NormWords(words0)
+      ws == IF words = <<>> THEN <<>> ELSE Tail(words)
+  IN CompActsFrom(cfg, orc, ws, InitState(cfg, orc, ws), {})
+
 CompOutcome(cfg, orc, words0, target) ==
   LET words == NormWords(words0)
       ws == IF words = <<>> THEN <<>> ELSE Tail(words)   \* the first word is the program name
